@@ -7,7 +7,7 @@ refresh_schema_and_set_result and ResponseFuture._set_result run on a never-conn
 returning scripted system.local / system.peers(_v2) snapshots, scripted host states and a virtual clock; every poll's
 timeout argument, every sleep, every _get_schema_mismatches result, the verdict and is_schema_agreed are compared with the model.
 """
-import itertools, json, os
+import ast, itertools, json, os
 from vf import core
 from vf import nodes_c43 as N
 
@@ -92,6 +92,14 @@ def gen_case(rng, mode):
         tail['resp'] = 'timeout'
     case = {'mode': mode, 'budget_ms': budget, 'qtimeout_ms': q, 'v2': v2, 'polls': polls, 'tail': tail,
             'cc_shutdown': rng.random() < 0.04}
+    if rng.random() < 0.3:
+        # two-waiter history: waiter A holds the schema-agreement lock across its own polls while this waiter is queued
+        a_polls = [gen_poll(rng, not v2, 0.05) for _ in range(rng.choice([1, 2, 3, 4]))]
+        a_tail = gen_poll(rng, not v2, rng.choice([0.0, 0.9]))
+        for p in a_polls + [a_tail]:
+            if p['resp'] in ('shutdown_cc', 'shutdown_raise'):
+                p['resp'] = 'timeout'
+        case['waiter_a'] = {'polls': a_polls, 'tail': a_tail}
     if mode == 'future':
         case['cluster_shutdown'] = rng.random() < 0.04
         case['meta_enabled'] = rng.random() < 0.7
@@ -99,11 +107,62 @@ def gen_case(rng, mode):
     else:
         case['via_wait_time'] = rng.random() < 0.5
         case['conn_from_cc'] = rng.random() < 0.3
-        if rng.random() < 0.35:
+        if 'waiter_a' not in case and rng.random() < 0.35:
             case['preloaded'] = {'hosts': gen_hosts(rng, not v2), 'snap': gen_snap(rng, 0.5)}
         if rng.random() < 0.2:
             case['tail'] = None         # finite script: the model must say `More` exactly where the real loop asks again
     return case
+
+
+def lock_audit(src):
+    """The model takes `elapsed = 0` when the waiter holds the schema-agreement lock: every read of the clock, every sleep and
+    every query of wait_for_schema_agreement must lie inside `with self._schema_agreement_lock:` (time spent queued on the
+    lock must not count against the waiter's budget)."""
+    probs = []
+    tree = ast.parse(src)
+    fn = None
+    for n in ast.walk(tree):
+        if isinstance(n, ast.ClassDef) and n.name == 'ControlConnection':
+            for m in n.body:
+                if isinstance(m, ast.FunctionDef) and m.name == 'wait_for_schema_agreement':
+                    fn = m
+    if fn is None:
+        return ['ControlConnection.wait_for_schema_agreement not found']
+
+    def is_lock(e):
+        return (isinstance(e, ast.Attribute) and e.attr == '_schema_agreement_lock' and isinstance(e.value, ast.Name) and e.value.id == 'self')
+    withs = [n for n in ast.walk(fn) if isinstance(n, ast.With) and any(is_lock(i.context_expr) for i in n.items)]
+    if len(withs) != 1:
+        return ['expected exactly one `with self._schema_agreement_lock:` region, found %d' % len(withs)]
+    inside = set(id(n) for n in ast.walk(withs[0]))
+
+    def timed(call):
+        f = call.func
+        if isinstance(f, ast.Attribute) and f.attr in ('time', 'sleep') and isinstance(f.value, ast.Attribute) and f.value.attr == '_time':
+            return 'self._time.%s()' % f.attr
+        if isinstance(f, ast.Attribute) and f.attr in ('wait_for_responses', 'wait_for_response'):
+            return 'connection.%s()' % f.attr
+        if isinstance(f, ast.Attribute) and f.attr in ('time', 'sleep', 'monotonic') and isinstance(f.value, ast.Name) and f.value.id == 'time':
+            return 'time.%s() (not the injectable self._time)' % f.attr
+        return None
+    n_clock = 0
+    for n in ast.walk(fn):
+        if isinstance(n, ast.Call):
+            t = timed(n)
+            if t is None:
+                continue
+            if t.startswith('time.'):
+                probs.append('%s at line %d' % (t, n.lineno))
+            elif id(n) not in inside:
+                probs.append('%s at line %d is outside the schema-agreement lock region' % (t, n.lineno))
+            elif t == 'self._time.time()':
+                n_clock += 1
+    for n in ast.walk(fn):
+        if isinstance(n, ast.Assign) and any(isinstance(t, ast.Name) and t.id in ('start', 'elapsed') for t in n.targets) and id(n) not in inside:
+            probs.append('`%s` assigned at line %d, outside the lock region' % (n.targets[0].id, n.lineno))
+    if n_clock == 0:
+        probs.append('no clock reading inside the lock region')
+    return probs
 
 
 def corpus_cases():
@@ -165,9 +224,15 @@ def run(ctx):
     ctx.trust('harness fakes (lib/vf/nodes_harness.py, nodes_c43.py): fake control connection, virtual clock as ControlConnection._time, '
               'synchronous session.submit, recording Metadata.refresh',
               'hand-written model Model/SchemaAgreement.v tied to the source by correspondence only')
+    probs = lock_audit(open(os.path.join(core.REPO, 'cassandra/cluster.py')).read())
+    ctx.extra['lock_audit'] = probs or 'ok: clock readings, sleeps and queries of wait_for_schema_agreement all inside `with self._schema_agreement_lock`'
+    ctx.trust('lock-region audit of ControlConnection.wait_for_schema_agreement (checks/C43.py:lock_audit)')
+    if probs:
+        ctx.proof_broken.append(('atomicity-audit', '; '.join(probs)))
     ctx.assume('one poll = one loop iteration; host states are read once per poll (when the snapshot is examined)',
                'ControlConnection._timeout > 0; OperationTimedOut is raised after exactly the timeout passed to wait_for_responses',
-               'the schema-agreement lock serialises waits (single-threaded harness)')
+               'a waiter\'s budget starts when it holds the schema-agreement lock (checked by the lock audit and by two-waiter '
+               'histories with a scripted lock: the first waiter\'s whole wait runs while the second is queued)')
     ctx.rule = ('scripts of 0-6 polls + a repeated tail poll over endpoints {1,2,3,4,control}, versions {null,1,2,3}, host states '
                 '{absent,up,down,None}, timeouts/shutdowns mixed in, budgets around the 200 ms sleep and qtimeout boundaries, peers v1/v2, '
                 'direct waits (preloaded results, wait_time override, connection taken from the control connection) and the full '
@@ -215,6 +280,14 @@ def run(ctx):
         report(ctx, case, obs, probs)
         cases.append(g)
         meta.append((case['mode'], case, obs))
+        ctx.count('waiters', 'two' if obs.get('waiter_a') else 'one')
+        if obs.get('waiter_a'):
+            ca, oa = N.waiter_a_case(case), obs['waiter_a']
+            pa = N.check_wait(ca, oa['outcome'], oa['consumed'])
+            for key, what in pa:
+                ctx.violation(key + '.first-waiter', 'first of two waiters: ' + what, case=case, actual=oa, theorem='C43_verdict', kind='history')
+            cases.append(N.g_direct_case(ca, oa))
+            meta.append(('first-waiter', case, oa))
         # per-poll _get_schema_mismatches results seen inside the wait
         pre = case.get('preloaded') if case['mode'] == 'direct' else None
         seq = []
